@@ -28,7 +28,7 @@ def main():
     for d in sys.argv[1:]:
         d = pathlib.Path(d).resolve()
         for diff in sorted(d.glob("refactor*.diff")):
-            name = f"{d.name}/{diff.name}"
+            name = f"{d.parent.name}/{d.name}/{diff.name}"
             try:
                 ov = apply_diff(diff.read_text(), repo.src)
             except StaleEdit as e:
